@@ -3,7 +3,7 @@
    The ChaCha8 stream (`us`, a function nat -> Z giving the raw u64 words) and the Gaussian sampler (the rounded samples `e`)
    are inputs of the model, never axioms; their statistical quality is measured by the check (support), not proved. *)
 From PV Require Import Base.MachineInt Model.Znx Model.Limbs Model.Flat Model.DftAbs Model.C08Oracle Model.EncModel
-  Proofs.EncValue Proofs.EncLists Proofs.C01Sk Proofs.C01Glwe Proofs.C06Struct.
+  Proofs.EncValue Proofs.EncLists Proofs.C01Sk Proofs.C01Glwe Proofs.C01Pk Proofs.C06Struct.
 Open Scope Z_scope.
 
 (* for 1 <= b <= 63 and every digit d of the full balanced range, exactly 2^(64-b) of the 2^64 words map to d:
@@ -85,8 +85,36 @@ Theorem C06_error_is_full :
 Proof. exact sk_error_is_full. Qed.
 Print Assumptions C06_error_is_full.
 
-(* the full statement of error_is_full also covers public-key encryption (three error terms) and the GGSW cells whose plaintext
-   sits on a column >= 1; for those the identity is checked by the oracle on every record (exact arithmetic), not proved *)
+(* error_is_full for public-key encryption: the exact phase of the ciphertext is plaintext + pk_error, where
+   pk_error = (u*e_pk)_k at the key's precision + (e_0 + sum_i s_i*e_i)_k at the ciphertext's precision: all three error
+   terms reach the phase with coefficient exactly 1 *)
+Theorem C06_error_is_full_pk :
+  forall (wb b pb R : Z) (n size psize rank : nat) (nk nkp Sn U E Ep M : Z),
+  normalize_value_ok (fun rb ab => normalize 64 rb ab 0) (2 ^ 62) R ->
+  normalize_value_ok (bnorm wb) (2 ^ (wb - 2)) R ->
+  2 <= wb -> 1 <= b <= R -> 1 <= pb <= R -> 0 <= Sn -> 0 <= U ->
+  forall (pt : ccol) (sk : list poly) (us : nat -> Z) (epk u : poly) (es : list poly) (pk ct : list ccol) (d : ccol),
+  length sk = rank -> length es = S rank ->
+  Forall (fun s => length s = n /\ norm1 s <= Sn) sk -> length u = n -> norm1 u <= U ->
+  length epk = n -> Forall (fun e => length e = n) es ->
+  (forall k, (k < n)%nat -> Z.abs (nthZ epk k) <= Ep) ->
+  (forall i k, (k < n)%nat -> Z.abs (nthZ (nth i es []) k) <= E) ->
+  (forall k, (k < n)%nat -> bnd M (coef pt k)) -> 0 <= M ->
+  zn rank * 2 ^ (b - 1) + Ep <= 2 ^ 62 ->
+  Sn * 2 ^ (b - 1) <= 2 ^ (wb - 2) ->
+  U * 2 ^ (b - 1) + E + M <= 2 ^ (wb - 2) ->
+  zn rank * (Sn * 2 ^ (b - 1)) + 2 ^ (b - 1) <= 2 ^ (wb - 2) ->
+  enc_sk wb b n size rank nkp None sk us epk = Some pk ->
+  enc_pk wb b n size size nk (Some pt) u pk es = Some ct ->
+  dec_glwe wb b pb n size psize sk ct = Some d ->
+  forall k, (k < n)%nat -> forall P, zn size * b <= P -> zn psize * pb <= P -> 1 <= P ->
+    exists q, lval P b size (coef (hd [] ct) k) + lvsum P b size (prods_at n size sk (tl ct) k)
+              = lval P b size (coef pt k) + pk_error b rank nk nkp P sk u epk es k + q * 2 ^ P.
+Proof. exact pk_error_is_full. Qed.
+Print Assumptions C06_error_is_full_pk.
+
+(* the remaining case of error_is_full: the GGSW cells whose plaintext sits on a column >= 1 (image s_{j-1}*m); for those the
+   identity is checked by the oracle on every record (exact arithmetic), not proved *)
 Definition C06_error_is_full_full : Prop :=
   forall (wb b : Z) (n size rank dsize : nat) (nk : Z) (row col : nat) (m : poly) (sk : list poly) (us : nat -> Z) (e : poly)
          (ct : list ccol),
